@@ -491,6 +491,11 @@ class CounterInterp:
                         s2.cmin = s2.cmin + 1
                     out.append((e, s2))
                 return out
+            if l is not None and r is not None and isinstance(t.ops[0], (ast.Lt, ast.LtE, ast.Gt, ast.GtE)):
+                # a linear inequality over the tracked values: decided for all admissible c (or a case split on c)
+                dec = self.decide(t, st, g)
+                if dec is not None:
+                    return [(e, st.copy()) for e in (te if dec else fe)]
         # boolean parameter / anything else: both edges, remember the fact
         name = ast.unparse(t)
         for e in te + fe:
@@ -515,11 +520,18 @@ class CounterInterp:
             out = [(e, st.copy()) for e in fe]
             # body has no effect: skip it (also covers zero iterations)
             return out
-        if not (isinstance(it, ast.Call) and isinstance(it.func, ast.Name) and it.func.id == 'range' and len(it.args) == 1):
-            raise Undecided(f'loop over {ast.unparse(it)} changes the lock state; only range(<linear>) is understood')
-        count = self.eval_int(it.args[0], st, g)
+        n_expr = None
+        if isinstance(it, ast.Call) and not it.keywords and not any(isinstance(a, ast.Starred) for a in it.args):
+            fp = g.res.path(it.func)
+            if fp in ('range', 'builtins.range') and len(it.args) == 1:
+                n_expr = it.args[0]
+            elif fp == 'itertools.repeat' and len(it.args) == 2:
+                n_expr = it.args[1]          # repeat(x, n) yields n times (none for n <= 0), like range(n)
+        if n_expr is None:
+            raise Undecided(f'loop over {ast.unparse(it)} changes the lock state; only range(<linear>) / repeat(x, <linear>) is understood')
+        count = self.eval_int(n_expr, st, g)
         if count is None:
-            raise Undecided(f'iteration count {ast.unparse(it.args[0])} is not a linear expression of the counter')
+            raise Undecided(f'iteration count {ast.unparse(n_expr)} is not a linear expression of the counter')
         return self._release_n_times(g, n, st, count, touches, body_nodes, fe)
 
     def _release_n_times(self, g: CFG, n: Node, st: State, count: Lin, touches, body_nodes, fe,
